@@ -45,6 +45,31 @@ def _map_forward(a, v):
     raise AssertionError("unreachable")
 
 
+def map_backward(a, v):
+    """design -> user coordinate through the inverse of the axis map."""
+    mp = a.get("map")
+    if not mp:
+        return v
+    inv = dict(a)
+    inv["map"] = [[y, x] for x, y in mp]
+    return _map_forward(inv, v)
+
+
+WDTH_TO_CLASS = [(50, 1), (62.5, 2), (75, 3), (87.5, 4), (100, 5), (112.5, 6), (125, 7), (150, 8), (200, 9)]
+
+
+def width_class(wdth_user):
+    v = min(max(wdth_user, 50), 200)
+    for (x0, y0), (x1, y1) in zip(WDTH_TO_CLASS, WDTH_TO_CLASS[1:]):
+        if x0 <= v <= x1:
+            return otRound(y0 + (y1 - y0) * (v - x0) / (x1 - x0))
+    raise AssertionError("unreachable")
+
+
+def weight_class(wght_user):
+    return otRound(min(max(wght_user, 1), 1000))
+
+
 def normalize(loc, bounds):
     out = {}
     for name, lo, d, hi in bounds:
